@@ -51,6 +51,7 @@ type Case struct {
 	Fixture  string     `json:"fixture,omitempty"`   // repo-relative path of a fixture index: re-encode case
 	History  []HistStep `json:"history,omitempty"`   // further StoreIndex calls on a few names (history_test.go)
 	Conc     *Conc      `json:"conc,omitempty"`      // concurrent reads of several names (concurrent_test.go)
+	Big      int        `json:"big,omitempty"`       // > 0: large-index case with this many chunks (big_test.go)
 }
 
 // ---------------------------------------------------------------- deterministic expansion
@@ -504,6 +505,10 @@ func run(c Case) (o hx.Outcome) {
 		runFixture(c, &o, f)
 		return o
 	}
+	if c.Big > 0 {
+		runBig(c, &o, f)
+		return o
+	}
 	if c.SHA256 {
 		desync.Digest = desync.SHA256{}
 	} else {
@@ -836,6 +841,12 @@ func TestMain(m *testing.M) {
 		if req := "store:" + kind; !strings.Contains(strings.Join(spec.Required, " ")+" ", req+" ") {
 			spec.Required = append(spec.Required, req)
 		}
+		if kind == storeOrder[0] {
+			spec.Required = append(spec.Required, "index-size>1MiB", "index-size>16MiB")
+			if hx.Thorough() {
+				spec.Required = append(spec.Required, "index-size>64MiB")
+			}
+		}
 		if histMax[kind] > 0 { // ... and, where it keeps named objects, driven with overwrite histories
 			spec.Required = append(spec.Required, "store-history:"+kind)
 		}
@@ -858,6 +869,45 @@ func TestEnum(t *testing.T) {
 	t.Run("store-kinds", enumStoreKinds)
 	t.Run("overwrite-scenarios", enumOverwriteScenarios)
 	t.Run("concurrent-scenarios", enumConcurrentScenarios)
+	t.Run("large-indexes", enumLargeIndexes)
+}
+
+// enumLargeIndexes: a ladder of index sizes through the HTTP index server and the local
+// store (1, 2, 5, 10, 20 MB); in the thorough tier also 1.75 M chunks (~70 MB, beyond 64 MiB).
+func enumLargeIndexes(t *testing.T) {
+	for _, mb := range []int{1, 2, 5, 10, 20} {
+		for _, kind := range []string{"http", "local"} {
+			if kind == "local" && mb < 20 {
+				continue
+			}
+			part := 3 // 1..10 MB through HTTP on one shard, the two 20 MB cases on two others (~1.5 s each)
+			if mb == 20 {
+				part = map[string]int{"http": 0, "local": 2}[kind]
+			}
+			if !mine(part) {
+				continue
+			}
+			{
+				c := Case{SHA256: mb%2 == 0, Store: kind, Flags: desync.CaFormatExcludeNoDump, Min: 16 << 10, Avg: 64 << 10, Max: 256 << 10,
+					Big: mb * 25000, SizeSeed: uint64(mb), IDSeed: uint64(mb) + 100}
+				if !hx.Case(t, spec, c) {
+					return
+				}
+			}
+		}
+	}
+	if hx.Thorough() {
+		for i, kind := range []string{"http", "local"} {
+			if !mine(8 + i) {
+				continue
+			}
+			c := Case{Store: kind, Flags: desync.CaFormatExcludeNoDump, Min: 16 << 10, Avg: 64 << 10, Max: 256 << 10,
+				Big: 1_750_000, SizeSeed: 70, IDSeed: 71}
+			if !hx.Case(t, spec, c) {
+				return
+			}
+		}
+	}
 }
 
 // mine spreads the deterministic parts over the shards of a run (all on shard 0 when there is one).
